@@ -107,9 +107,10 @@ TRIGGERS = re.compile(r'\.\.\.|"|__stdcall|WINAPI|__cdecl|extern|\[')
 
 def gen_text(rng):
     n = rng.randint(0, 40) if rng.random() < 0.9 else rng.randint(0, 4)
+    pieces = PIECES if rng.random() < 0.65 else [p for p in PIECES if "#" not in p]
     out = []
     for _ in range(n):
-        out.append(rng.choice(RARE) if rng.random() < 0.03 else rng.choice(PIECES))
+        out.append(rng.choice(RARE) if rng.random() < 0.03 else rng.choice(pieces))
     return "".join(out)
 
 
@@ -183,6 +184,7 @@ class Gen:
         self.n = 0
         self.structs = []      # complete struct/union "struct sN"
         self.typedefs = []     # typedef names of complete object types
+        self.scalar_typedefs = []   # ... that may be returned / passed by value
         self.items = []
 
     def name(self, p):
@@ -196,6 +198,15 @@ class Gen:
             return self.rng.choice(self.structs).split()
         if r < 0.3 and self.typedefs:
             return [self.rng.choice(self.typedefs)]
+        return self.rng.choice(PRIMS).split()
+
+    def valtype(self):
+        """tokens of a type usable as a return / parameter type (no arrays)"""
+        r = self.rng.random()
+        if r < 0.15 and self.structs:
+            return self.rng.choice(self.structs).split()
+        if r < 0.3 and self.scalar_typedefs:
+            return [self.rng.choice(self.scalar_typedefs)]
         return self.rng.choice(PRIMS).split()
 
     def field(self):
@@ -239,30 +250,34 @@ class Gen:
         if k == "typedef":
             r = rng.random()
             if r < 0.15:
-                nm = rng.choice(["uint8_t", "my_size_t", "int32_t", "bool"])     # names _common_type_names looks at
+                nm = rng.choice(["uint16_t", "ssize_t", "intptr_t", "bool"])     # names _common_type_names looks at (never used before)
                 if nm in self.typedefs:
                     nm = self.name("t")
                 toks = ["typedef"] + rng.choice(["unsigned char", "int", "unsigned long"]).split() + [nm, ";"]
                 self.typedefs.append(nm)
+                self.scalar_typedefs.append(nm)
                 return {"kind": k, "tokens": toks}
             nm = self.name("t")
             if r < 0.4:
-                toks = ["typedef"] + self.objtype() + [nm, ";"]
+                toks = ["typedef"] + self.valtype() + [nm, ";"]
                 self.typedefs.append(nm)
+                self.scalar_typedefs.append(nm)
             elif r < 0.55:
                 toks = ["typedef"] + self.objtype() + ["*", nm, ";"]
                 self.typedefs.append(nm)
+                self.scalar_typedefs.append(nm)
             elif r < 0.7:
                 toks = ["typedef"] + self.objtype() + [nm, "[", str(rng.randint(1, 4)), "]", ";"]
                 self.typedefs.append(nm)
             elif r < 0.85:
                 toks = ["typedef", "int", "(", "*", nm, ")", "("] + self.args() + [")", ";"]
                 self.typedefs.append(nm)
+                self.scalar_typedefs.append(nm)
             else:
                 toks = ["typedef", "struct", self.name("opq"), nm, ";"]      # incomplete: pointer use only
             return {"kind": k, "tokens": toks}
         if k == "func":
-            ret = rng.choice([["void"], self.objtype(), self.objtype() + ["*"]])
+            ret = rng.choice([["void"], self.valtype(), self.objtype() + ["*"]])
             return {"kind": k, "tokens": ret + [self.name("f"), "("] + self.args(True) + [")", ";"]}
         if k == "global":
             return {"kind": k, "tokens": ["extern"] + self.objtype() + [self.name("g"), ";"]}
@@ -276,9 +291,9 @@ class Gen:
         toks = []
         n = rng.randint(1, 3)
         for i in range(n):
-            t = self.objtype()
+            t = self.valtype()
             if rng.random() < 0.3:
-                t = t + ["*"]
+                t = self.objtype() + ["*"]
             if rng.random() < 0.4:
                 t = t + [self.name("a")]
             toks += t
@@ -395,6 +410,10 @@ def decorate(rng, items, force=None):
             if anomaly:
                 force = None
             for i, t in enumerate(toks):
+                if i == 3 and len(t) > 1 and rng.random() < 0.2:
+                    k = rng.randint(1, len(t) - 1)
+                    t = t[:k] + "\\\n" + t[k:]          # a continuation may split the value token
+                    stats.add("define-continuation-in-value")
                 parts.append(t)
                 if i == 3:
                     break
@@ -545,8 +564,8 @@ def part_b(ctx, nbases, nvariants):
 # ------------------------------------------------------------------ entry points
 
 def correspond(ctx):
-    part_a(ctx, ctx.n(500, 6000))
-    part_b(ctx, ctx.n(24, 400), ctx.n(8, 12))
+    part_a(ctx, ctx.n(1500, 10000))
+    part_b(ctx, ctx.n(60, 600), ctx.n(10, 12))
 
 
 def search(ctx):
@@ -561,14 +580,33 @@ def check_witness(ctx, finding):
 
 
 def replay(ctx, obj):
-    case = obj["case"]
+    case = obj.get("case")
+    if case is None:           # a "no-failing-input-found" file: replay the first model/implementation difference
+        for b in obj.get("theorems_or_correspondence_no_longer_checking", []):
+            if b.get("what") == "correspondence":
+                case = b["first"]["case"]
+                break
+        else:
+            print("the proof stage was broken:", obj.get("theorems_or_correspondence_no_longer_checking"))
+            return 1
     if case.get("part") == "A":
         from cffi import cparser
         text = case["text"]
         impl = cparser._r_comment.sub(lambda m: " " + m.group().count("\n") * "\n", text)
-        out = ctx.driver(["strip " + enc(text)])[0]
-        print("text %r\n  regex -> %r\n  model -> %r" % (text, impl, dec(out[3:]) if out.startswith("ok ") else out))
-        return 0 if out.startswith("ok ") and dec(out[3:]) == impl else 1
+        with warnings.catch_warnings():
+            warnings.simplefilter("ignore")
+            src, macros = cparser._preprocess(text)
+        out = ctx.driver(["strip " + enc(text), "macros " + enc(text)])
+        model = dec(out[0][3:]) if out[0].startswith("ok ") else out[0]
+        d = {}
+        if out[1].startswith("ok"):
+            for w in out[1].split(" ")[1:]:
+                n, v = w.split("=")
+                d[dec(n)] = dec(v)
+        print("text %r\n  regex  -> %r\n  model  -> %r\n  macros -> %r\n  model  -> %r (%s)"
+              % (text, impl, model, list(macros.items()), list(d.items()), out[1][:12]))
+        ascii_ok = all(ord(c) < 128 for c in impl)
+        return 0 if model == impl and (not ascii_ok or list(d.items()) == list(macros.items())) else 1
     a, b = observe(case["base"]), observe(case["variant"])
     d = diff(a, b) if "exc" not in a else "plain cdef rejected: %r" % (a,)
     print("plain cdef:\n%s\ndecorated cdef:\n%s\n=> %s" % (case["base"], case["variant"], d or "same meaning"))
